@@ -180,6 +180,20 @@ def explore_fit(acc, np, kmeans_mod, data, nd, cfg):
         if why and not reported:
             reported = True     # one counterexample per (data set, configuration)
             acc.violation('postcondition', 'KMeans.fit', 'c' if cfg.get('use_c') else 'py', tags, dict(case0, choices=list(tape.taken)), 'k clusters partitioning all series, nearest mean each', why)
+        if leaves == 1 and not why:
+            # the same model object fitted a second time (default outcome of every draw): the postcondition, including the
+            # iteration bound, holds for that fit as well
+            events2 = []
+            series = [np.array(s, dtype=float) for s in data]
+            with Patched(np, Tape([]), cfg.get('parallel')):
+                res2 = core.call(model.fit, series, use_parallel=bool(cfg.get('parallel')), monitor_distances=lambda cd, stopped: (events2.append(bool(stopped)), True)[1])
+            acc.trans()
+            acc.valid()
+            why2 = judge(np, data, nd, cfg, model, res2, events2)
+            if why2 and not reported:
+                reported = True
+                acc.violation('postcondition', 'KMeans.fit', 'c' if cfg.get('use_c') else 'py', dict(tags, refit=True), dict(case0, choices=list(tape.taken), refit=True),
+                              'k clusters partitioning all series, nearest mean each (second fit on the same model object)', why2)
         if leaves >= LEAF_CAP:
             acc.cap('choice_tree_leaf_cap')
             break
@@ -324,7 +338,7 @@ def run(ctx):
              'ordered subset of the support) is enumerated depth-first; a state is one (data set, configuration), validated traces are complete fits; non-trivial = duplicates in the data set or more than one leaf',
         bounds={'data': 'multisets of n = 3 (every 4th; thorough all), 4 (every 110th; thorough every 14th), 5 (every 2100th; thorough every 400th) series over a 2-letter alphabet with lengths 2..3; outlier data sets: one series n-1 times plus one different series, n = 4 (all 132) and 5 (every 4th; thorough all) with drop_stddev 0.5 / 1 in both engines; three copies + a near + a far series (n = 5) with drop_stddev 0.5; every 1500th (thorough 150th) multiset of 4 series over the 3-letter alphabet with lengths 1..3, drop_stddev 0.5 / None; ndim 2: multisets of 3 series of 2 points',
                 'k': '2, 3 (< n)', 'init': 'k-means++, random, initialize_sample_size 1 and 2', 'options': '%d option sets over window, penalty, drop_stddev, use_c, parallel (virtual pool); max_it 1, 2, 10' % len(OPTION_SETS),
-                'leaf_cap': LEAF_CAP},
+                'leaf_cap': LEAF_CAP, 'refit': 'after the first leaf of every tree the same model object is fitted again (default outcome of every draw) and judged the same way'},
         assumptions=['all outcomes of non-zero probability are enumerated, which is a superset of all seeds; numpy.random.choice(range(n), k, replace=False) in the random initialisation is only used for its length',
                      'nearest-mean check uses the reference DTW with 1e-9 relative slack (means are not dyadic)', 'empty index sets are accepted (C16 asks for k index sets keyed 0..k-1 that partition all series)',
                      'max_leaves_per_tree=%r' % (mx,)],
